@@ -26,7 +26,8 @@ BY_PROPERTY = {
                                               'Mahotas.pybody_thresholding_otsu_eq_model',
                                               'Mahotas.pybody_thresholding_soft_threshold_eq_model']),
             ('Mahotas.Proofs.PyBodyTiesC16Rc', ['Mahotas.pybody_thresholding_rc_eq_model', 'Mahotas.pybody_rc_guard',
-                                                'Mahotas.pybody_rc_maxt'])],
+                                                'Mahotas.pybody_rc_maxt']),
+            ('Mahotas.Proofs.PyBodyTiesC16b', ['Mahotas.pybody_morph_circle_se_eq_model', 'Mahotas.pybody_morph_circle_se_circleSe'])],
     'C14': [('Mahotas.Proofs.PyBodyTiesC14',
              ['Mahotas.pybody_morph__remove_centre_eq_model', 'Mahotas.pybody_offsets_remove_centre',
               'Mahotas.pybody_morph_locmax_eq_model', 'Mahotas.pybody_morph_locmin_eq_model',
